@@ -672,9 +672,29 @@ func c02RunConc(c *mon.Ctx, seed uint64) {
 
 	var jobs []func() string
 
+	var (
+		proto  *secp256k1.Element // an element with a past (it has been the receiver of operations), shared by pairs of jobs
+		protoP gen.PV
+	)
+
 	for i := 0; i < concJobs; i++ {
 		p, q := gen.Fresh(r), gen.Fresh(r)
 		a, b := mon.Elem(p.P, gen.DrawRepr(r, false)), mon.Elem(q.P, gen.DrawRepr(r, false))
+
+		switch i % 4 {
+		case 2:
+			// this job and the next work on COPIES of one element that has already been a receiver: whatever an element
+			// accumulates in use must not be shared between it and its copies
+			proto = mon.Elem(p.P, gen.DrawRepr(r, false)).Double().Add(secp256k1.Base()).Subtract(secp256k1.Base())
+			_ = proto.Encode()
+			protoP = gen.PV{P: oracle.Dbl(p.P), Tag: "2P"}
+			p, a = protoP, proto.Copy()
+		case 3:
+			p, a = protoP, secp256k1.NewElement().Set(proto)
+			if i%8 == 7 {
+				a = proto // ... and the original itself
+			}
+		}
 		wAdd, wSub, wDbl, wNeg := oracle.EncC(oracle.Add(p.P, q.P)), oracle.EncC(oracle.Sub(p.P, q.P)), oracle.EncC(oracle.Dbl(p.P)), oracle.EncC(oracle.Neg(p.P))
 		id := secp256k1.NewElement()
 		jobs = append(jobs, func() string {
